@@ -173,7 +173,7 @@ def build_engine(fl, rnd, d=3):
         ivs.append(fl.InputVariable(f"in{i}", enabled=rnd.random() > 0.1, minimum=lo, maximum=hi, terms=[G.build_term(fl, t) for t in terms]))
     lo, hi = E.gen_range(rnd)
     oterms = [G.shape_term(rnd, f"b{j}", lo, hi, d=d) for j in range(rnd.randint(1, 3))]
-    ov = fl.OutputVariable("out0", enabled=rnd.random() > 0.1, minimum=lo, maximum=hi, aggregation=getattr(fl, rnd.choice(N.SNORMS))() if rnd.random() < 0.85 else None, defuzzifier=fl.Centroid(10), terms=[G.build_term(fl, t) for t in oterms])
+    ov = fl.OutputVariable("out0", enabled=rnd.random() > 0.1, minimum=lo, maximum=hi, aggregation=getattr(fl, rnd.choice(N.SNORMS))() if rnd.random() < 0.7 else None, defuzzifier=fl.Centroid(10), terms=[G.build_term(fl, t) for t in oterms])
     spec_out = dict(name="out0", terms=oterms, minimum=lo, maximum=hi)
     engine = fl.Engine("e", input_variables=ivs, output_variables=[ov])
     return engine, spec_inputs, spec_out
@@ -199,11 +199,11 @@ def run(ctx):
         for i, rnd in ctx.cases("antecedents", nant):
             engine, spec_inputs, spec_out = build_engine(fl, rnd)
             ov = engine.output_variables[0]
-            for t in rnd.sample(ov.terms, rnd.randint(0, len(ov.terms))) * rnd.choice([1, 2]):
+            for t in rnd.sample(ov.terms, rnd.randint(0, len(ov.terms))) * rnd.choice([1, 2, 2, 3]):
                 ov.fuzzy.terms.append(fl.Activated(t, rnd.choice([0.0, 1.0, 0.25, rnd.random()]), fl.Minimum()))
             tname, sname = pairs[i % len(pairs)]
             conj, disj = getattr(fl, tname)(), getattr(fl, sname)()
-            variables = spec_inputs + ([spec_out] if rnd.random() < 0.35 else [])
+            variables = spec_inputs + ([spec_out] if rnd.random() < 0.45 else [])
             tree = E.gen_tree(rnd, variables, rnd.randint(1, max_depth))
             w = E.gen_weight(rnd, 3)
             style = i % 4
